@@ -25,9 +25,16 @@ def load_known(prop):
     return [k for k in load_all() if k["property"] == prop and k.get("status") == "open"]
 
 
+def _any(patterns, value):
+    """A KF kind / site is a glob pattern or a list of them ('[' is literal)."""
+    if isinstance(patterns, str):
+        patterns = [patterns]
+    return any(fnmatch.fnmatchcase(value, p.replace("[", "[[]")) for p in patterns)
+
+
 def match(kf, cond_name, failure):
     for k in kf:
-        if k["kind"] != failure["kind"] or not fnmatch.fnmatchcase(failure["site"], k["site"].replace("[", "[[]")):
+        if not _any(k["kind"], failure["kind"]) or not _any(k["site"], failure["site"]):
             continue
         if k.get("cond") and not fnmatch.fnmatchcase(cond_name, k["cond"]):
             continue
